@@ -254,8 +254,10 @@ func GetJsonFromAllRrcOldPipeline(allrrc []*sutils.RecordResultContainer, esResp
 				if err != nil {
 					nodeRes.AllSearchColumnsByTimeRange = make(map[string]bool, 0)
 				}
-				nodeRes.AllSearchColumnsByTimeRange = segmetadata.GetColumnsForTheIndexesByTimeRange(timeRange, vTableNames, orgid)
+				// Read the open segments first: a segment that rotates in between is added to the
+				// rotated metadata before it is removed from the unrotated info, so it is seen at least once.
 				unrotatedCols := writer.GetUnrotatedColumnsForTheIndexesByTimeRange(timeRange, vTableNames, orgid)
+				nodeRes.AllSearchColumnsByTimeRange = segmetadata.GetColumnsForTheIndexesByTimeRange(timeRange, vTableNames, orgid)
 				for col := range unrotatedCols {
 					if _, exists := nodeRes.AllSearchColumnsByTimeRange[col]; !exists {
 						nodeRes.AllSearchColumnsByTimeRange[col] = true
